@@ -81,6 +81,18 @@ func mkCustom() map[string]*CustomOp {
 			return s + "+", nil
 		}},
 	}
+	// clen: the length of a string as a plain Go int - a value the engine does not normalise (operator results are
+	// passed on as they are), so built-in operators reject it and eq compares it unequal to every int64
+	ops = append(ops, &CustomOp{Name: "clen", Fn: func(a []interface{}) (interface{}, error) {
+		if len(a) != 1 {
+			return nil, ErrCustom
+		}
+		s, ok := a[0].(string)
+		if !ok {
+			return nil, ErrCustom
+		}
+		return len(s), nil
+	}})
 	// cnest: x + 3, where the 3 is obtained by evaluating another compiled expression on the SAME context
 	// (a rule that evaluates a sub-rule), through TryEval and through Eval
 	ops = append(ops, &CustomOp{Name: "cnest",
@@ -142,7 +154,7 @@ func nestedSubExpr() *eval.Expr {
 }
 
 // names declared stateless in StatelessOperators ("sq" is declared but never registered)
-var stdStateless = []string{"sb", "si", "sz", "sfail", "spos", "spick", "ss", "sq", "add"}
+var stdStateless = []string{"sb", "si", "sz", "sfail", "spos", "spick", "ss", "slen", "sq", "add"}
 
 var stdConsts = map[string]interface{}{
 	"KT": true, "KF": false, "KI": int64(7), "KN": int64(-3), "KZ": int64(0), "KS": "kay",
@@ -174,6 +186,9 @@ type G struct {
 	StrPool   []string
 	IntLits   []int64
 	Budget    int // remaining node budget; generation degrades to leaves when it is used up
+	// Foreign: also use clen/slen, operators whose result is a plain Go int (no literal syntax, so Dump cannot print a
+	// folded one faithfully): only for workloads whose oracle does not read programs back from Dump
+	Foreign bool
 }
 
 func (g *G) p(x float64) bool { return g.R.Float64() < x }
@@ -317,7 +332,18 @@ func (g *G) slistLeaf() *Node {
 
 // failing boolean-typed expression (never yields a non-boolean value)
 func (g *G) failingBool(d int) *Node {
-	switch g.R.Intn(7) {
+	switch g.R.Intn(8) {
+	case 7:
+		if g.Custom && g.Foreign {
+			// a plain Go int from an operator (constant argument: the stateless twin is folded) against an int64
+			pre := "c"
+			if g.Stateless && g.R.Intn(2) == 0 {
+				pre = "s"
+			}
+			s := g.strLit()
+			return Op(g.pick([]string{"eq", "=", "ne", "!=", "gt", "in"}), TBool, Op(pre+"len", TInt, Lit(s)), Lit(int64(len(s))))
+		}
+		return Op(g.name("not"), TBool, Lit(g.intLit()))
 	case 0:
 		return Op(g.name("not"), TBool, Lit(g.intLit()))
 	case 1:
@@ -339,7 +365,19 @@ func (g *G) failingBool(d int) *Node {
 }
 
 func (g *G) failingInt(d int) *Node {
-	switch g.R.Intn(7) {
+	switch g.R.Intn(8) {
+	case 7:
+		if g.Custom && g.Foreign {
+			pre := "c"
+			if g.Stateless && g.R.Intn(2) == 0 {
+				pre = "s"
+			}
+			if g.R.Intn(2) == 0 {
+				return Op(pre+"len", TInt, g.strLeaf())
+			}
+			return Op(g.name("add"), TInt, Op(pre+"len", TInt, Lit(g.strLit())), Lit(int64(1)))
+		}
+		return Op(g.name("add"), TInt, g.Int(d-1), Lit("s"))
 	case 0:
 		return Op(g.name("add"), TInt, g.Int(d-1), Lit("s"))
 	case 1:
